@@ -37,7 +37,7 @@ func thoroughExtras(c *Ctx, run func(*Ctx), seed int64) {
 		n := 0
 		for _, o := range c2.Obs {
 			n++
-			if o.Verdict != OK {
+			if o.Verdict != OK && o.Verdict != UNDECIDED {
 				if v, ok := have[o.Key]; ok && v != OK {
 					continue // same finding as on the default platform
 				}
@@ -50,7 +50,7 @@ func thoroughExtras(c *Ctx, run func(*Ctx), seed int64) {
 		}
 		for r, fl := range c2.Floors {
 			if c2.Counts[r] < fl {
-				c.add("FLOOR", r+"@"+name, VIOLATION, 0, fmt.Sprintf("rule %s matched %d < floor %d under %s", r, c2.Counts[r], fl, name))
+				c.add("FLOOR", r+"@"+name, UNDECIDED, 0, fmt.Sprintf("rule %s matched %d < floor %d under %s", r, c2.Counts[r], fl, name))
 			}
 		}
 		platforms = append(platforms, fmt.Sprintf("%s(%d obligations)", name, n))
